@@ -681,14 +681,20 @@ def fresh_histories(cfg, depth, acc, chunk, of):
 # ============================================================================= (b) parameter controller
 EDGES3 = ("a", "b", "c")
 SCOPES = {"all": None, "edge:a": ["a"], "edges:a,b": ["a", "b"], "edges:b,c": ["b", "c"]}
-PAR_DEFAULTS = {"kappa": {"ibd": False, "lower": 1e-6, "upper": 1e6, "vals": [2.0, 0.5], "big": (2e6, 1e7)},
-                "length": {"ibd": True, "lower": 0.0, "upper": 10.0, "vals": [0.0, 1.3], "big": (15.0, 20.0)}}  # v0 sits on the lower bound: exported rules carry init=0.0
+PAR_DEFAULTS = {"kappa": {"ibd": False, "lower": 1e-6, "upper": 1e6, "vals": [2.0, 0.5], "big": (2e6, 1e7), "bnd": (3.0, 2.0)},
+                "length": {"ibd": True, "lower": 0.0, "upper": 10.0, "vals": [0.0, 1.3], "big": (15.0, 20.0), "bnd": (0.5, 0.3)}}  # v0 sits on the lower bound: exported rules carry init=0.0
 MPROBS = [{"T": 0.1, "C": 0.2, "A": 0.3, "G": 0.4}, {"T": 0.4, "C": 0.3, "A": 0.2, "G": 0.1}]
-KINDS = ("const_v0", "const_v1", "const_cur", "init_v0", "init_v1", "indep", "shared", "init_big")
+# lower_hi / upper_lo: a new lower bound above / a new upper bound below ("bnd"); the two conflict, so a rule that spans several
+# scopes can be legal for some of them and refused (ValueError) for another - a refused rule must change nothing
+KINDS = ("const_v0", "const_v1", "const_cur", "init_v0", "init_v1", "indep", "shared", "init_big", "lower_hi", "upper_lo")
+
+
+class Refused(Exception):
+    pass
 
 
 REDUCED_SCOPES = ("all", "edge:a", "edges:a,b")
-REDUCED_KINDS = ("const_v0", "const_cur", "init_v1", "indep", "shared", "init_big")
+REDUCED_KINDS = ("const_v0", "const_cur", "init_v1", "indep", "shared", "init_big", "lower_hi", "upper_lo")
 
 
 def lf_ops(reduced=False):
@@ -698,6 +704,7 @@ def lf_ops(reduced=False):
         for scope in (REDUCED_SCOPES if reduced else SCOPES):
             for kind in (REDUCED_KINDS if reduced else KINDS):
                 ops.append(["rule", par, scope, kind])
+    ops.append(["calc_step"])
     if reduced:
         ops += [["mprobs", 1], ["aln", 1], ["optimise"]]
         menu = [["rule", "kappa", "all", "init_v1"], ["rule", "length", "edges:a,b", "shared"]]
@@ -813,6 +820,10 @@ class LfSystem:
                 kw.update(is_independent=False)
             elif kind == "init_big":
                 kw.update(init=d["big"][0], upper=d["big"][1])
+            elif kind == "lower_hi":
+                kw.update(lower=d["bnd"][0])
+            elif kind == "upper_lo":
+                kw.update(upper=d["bnd"][1])
             lf.set_param_rule(par, **kw)
         elif op[0] == "mprobs":
             lf.set_motif_probs(dict(MPROBS[op[1]]))
@@ -820,6 +831,21 @@ class LfSystem:
             lf.set_alignment(alns[op[1]])
         elif op[0] == "optimise":
             lf.optimise(local=True, max_evaluations=6, limit_action="ignore", show_progress=False)
+        elif op[0] == "calc_step":
+            # what an optimiser does, spelled out: a calculator is made, every input is moved (by a different amount each,
+            # inside its bounds), the calculator's value is taken and the inputs are copied back into the function
+            import numpy
+
+            calc = lf.make_calculator()
+            x = numpy.array(calc.get_value_array(), float)
+            if len(x):
+                lo, up = (numpy.array(v, float) for v in calc.get_bounds_vectors())
+                step = 0.05 * (1 + numpy.arange(len(x)))
+                x2 = numpy.where(x + step <= up, x + step, numpy.where(x - step >= lo, x - step, x))
+                self._calc_lnl = float(calc(x2))
+                lf.update_from_calculator(calc)
+            else:
+                self._calc_lnl = None
         else:
             raise ValueError(op)
 
@@ -867,6 +893,10 @@ class LfSystem:
                 value = d["vals"][int(kind[-1])]
             elif kind == "init_big":
                 value, upper = d["big"]
+            elif kind == "lower_hi":
+                lower = d["bnd"][0]
+            elif kind == "upper_lo":
+                upper = d["bnd"][1]
             new = []
             for g in groups:
                 v = value if value is not None else sum(rec[e]["v"] for e in g) / len(g)
@@ -881,6 +911,8 @@ class LfSystem:
                         lo = lower
                     if upper is not None:
                         up = upper
+                    if lo > up:
+                        raise Refused(f"{par}: upper < lower for {g}")  # nothing of the rule is applied
                     v = min(max(v, lo), up)
                     s = {"v": v, "const": False, "lo": lo, "up": up}
                 new.append((g, s))
@@ -896,18 +928,31 @@ class LfSystem:
             info["aln"] = op[1]
             if info["auto"]:
                 info["mprobs"] = aln_freqs([ALN3, ALN3B][op[1]])
-        elif op[0] == "optimise":
+        elif op[0] in ("optimise", "calc_step"):
             # values are read back (the trajectory of the optimiser is not modelled)
             for par, rec in info["pars"].items():
                 for e in EDGES3:
                     if not rec[e]["const"]:
                         rec[e]["v"] = float(lf.get_param_value(par, edge=e))
 
+    def expects_refusal(self, info, op):
+        import copy
+
+        if op[0] != "rule" or op[3] not in ("lower_hi", "upper_lo"):
+            return False
+        try:
+            self._model_one(copy.deepcopy(info), op, None)
+        except Refused:
+            return True
+        return False
+
     def model_step(self, info, op, obs, lf):
         import copy
 
         if obs[0] != "ok":
             return info
+        if self.expects_refusal(info, op):
+            return info  # judged in check_transition; the model does not follow an accepted illegal rule
         info = copy.deepcopy(info)
         if op[0] == "postponed":
             self._model_one(info, op[1], lf)
@@ -973,14 +1018,25 @@ class LfSystem:
         """coarse class of the last operation of a history (one defect, few signatures)"""
         if op is None:
             return "initial state"
-        return {"rule": "set_param_rule", "mprobs": "set_motif_probs", "aln": "set_alignment", "optimise": "optimise",
+        return {"rule": "set_param_rule", "mprobs": "set_motif_probs", "aln": "set_alignment", "optimise": "optimise", "calc_step": "update_from_calculator",
                 "postponed": "updates_postponed block", "failed_batch": "updates_postponed block that failed, then a valid alignment"}[op[0]]
 
     def check_transition(self, lf, info, op, obs, info2, hist_fn, acc):
-        if obs[0] != "ok":
+        refusal = self.expects_refusal(info, op)
+        if obs[0] != "ok" and refusal and obs[1] == "ValueError":
+            acc.outcome(("lf", "rule refused as expected"))
+        elif obs[0] == "ok" and refusal:
+            acc.fail("likelihood function: a rule whose upper bound lies below the lower bound of one of its scopes was accepted",
+                     {"kind": "lf", "config": self.config, "hist": hist_fn(), "op": op}, {})
+        elif obs[0] != "ok":
             acc.fail(f"likelihood function: {self._cls(op)} raised {obs[1]}",
                      {"kind": "lf", "config": self.config, "hist": hist_fn(), "op": op}, {"error": obs[2]})
         acc.outcome(("lf", op[0], obs[0], op[3] if op[0] == "rule" else None))
+        if op[0] == "calc_step" and obs[0] == "ok" and getattr(self, "_calc_lnl", None) is not None:
+            got = float(lf.lnL)
+            if not close(got, self._calc_lnl):
+                acc.fail("likelihood function: lnL after update_from_calculator differs from the value the calculator reported for the inputs copied back",
+                         {"kind": "lf", "config": self.config, "hist": hist_fn(), "op": op}, {"lf": got, "calculator": self._calc_lnl})
         self._last_op = op
 
     def check_state(self, lf, info, hist, acc):
